@@ -489,7 +489,7 @@ def _check(prop, cfg, tier, seed, scratch, t0):
                     # properties the function serves
                     unit_props = [q for q, c in CFG.PROPS.items() if an["unit"] in c.get("units", [])]
                     shared = sorted(set(f.get("tags") or it.get("props") or unit_props or [prop]) & set(CFG.PROPS))
-                    violations.append({"obligation": "%s: %s" % (label, f["msg"]), "unit": an["unit"], "verifier_output": f["text"], "speaks_for": shared})
+                    violations.append({"obligation": "%s: %s" % (label, f["msg"]), "unit": an["unit"], "verifier_output": f["text"], "speaks_for": shared, "explicit_tags": bool(f.get("tags"))})
                 else:
                     other_failures.append("%s: %s [%s]" % (label, f["msg"], ",".join(f.get("tags") or it.get("props") or [])))
             mine_labels[label] = any(v["obligation"].startswith(label + ":") for v in violations)
@@ -537,7 +537,13 @@ def _check(prop, cfg, tier, seed, scratch, t0):
     # obligation is attributed to it and this property is left undecided (exit 2), not alarmed.
     # Nothing is dropped when no sibling has evidence either, or when a clause of this property
     # alone fails.
-    if violations and not bounded_viol and all(len(v.get("speaks_for", [prop])) > 1 for v in violations):
+    def comparable(v):
+        # only clauses explicitly tagged with several properties of one family whose bounded
+        # stand-ins look at different facets of the SAME runs against the SAME reference (so that
+        # "no failing input for this facet" is comparable evidence)
+        sf = set(v.get("speaks_for", [prop]))
+        return v.get("explicit_tags") and len(sf) > 1 and any(sf <= fam for fam in CFG.EVIDENCE_FAMILIES)
+    if violations and not bounded_viol and all(comparable(v) for v in violations):
         siblings = sorted({q for v in violations for q in v["speaks_for"]} - {prop})
         culprit = []
         for q in siblings:
